@@ -15,11 +15,16 @@ import (
 
 func (e *Enc) collectNamesImpl() {
 	e.names = map[string][]ssa.Value{}
+	e.nameAt = map[string]map[ssa.Value]ssa.Instruction{}
 	for _, b := range e.fn.Blocks {
 		for _, in := range b.Instrs {
 			if dr, ok := in.(*ssa.DebugRef); ok {
 				// local variables only (not the field named in a selector expression)
 				if v, isVar := dr.Object().(*types.Var); !isVar || v.IsField() {
+					continue
+				}
+				// the value of the variable itself, not of an implicit conversion of it at the point of use
+				if !dr.IsAddr && !types.Identical(dr.X.Type(), dr.Object().Type()) {
 					continue
 				}
 				if id, ok := dr.Expr.(*ast.Ident); ok {
@@ -31,6 +36,10 @@ func (e *Enc) collectNamesImpl() {
 					}
 					if !dup {
 						e.names[id.Name] = append(e.names[id.Name], dr.X)
+						if e.nameAt[id.Name] == nil {
+							e.nameAt[id.Name] = map[ssa.Value]ssa.Instruction{}
+						}
+						e.nameAt[id.Name][dr.X] = dr // the variable holds this value from here on
 					}
 				}
 			}
@@ -648,6 +657,7 @@ func (e *Enc) encodeMapUpdate(x *ssa.MapUpdate) {
 			if at.Callee != "mapupdate" && at.Callee != fmt.Sprintf("mapupdate#%d", ord) {
 				continue
 			}
+			e.atHit[i] = true
 			env := e.fnEnv(e.cur)
 			env.vars["m"] = TV{T: m, Typ: x.Map.Type()}
 			env.vars["k"] = TV{T: k, Typ: x.Key.Type()}
@@ -800,6 +810,7 @@ func (e *Enc) encodeStore(x *ssa.Store) {
 	e.monotoneObligation(av.Addr, e.termOf(x.Val), x.Pos())
 	if av.Addr.Kind == "field" {
 		e.writersObligation(e.p.fieldKey(av.Addr.Struct, av.Addr.Field), av.Addr.Base, x.Pos())
+		e.storeAtClauses(x, av.Addr)
 	}
 	e.frameObligationAddr(x, av.Addr, x.Pos())
 	e.store(av.Addr, e.termOf(x.Val))
@@ -1088,6 +1099,13 @@ func (e *Enc) encodeConvert(x *ssa.Convert) {
 		}
 		c := e.bind(x, SliceMk(r, IntLit(0), ln, ln))
 		_ = c
+		if eb != nil && eb.Kind() == types.Int32 {
+			// the runes of a string are a function of the string
+			k := e.p.elemKey(sl.Elem())
+			e.declareFun("runes_of", []Sort{SStr}, ArraySort(SInt, SInt))
+			h := e.heapGet(e.cur, k)
+			e.heapSet(e.cur, k, e.define("H_"+sanitize(k), Store(h, r, App(ArraySort(SInt, SInt), "runes_of", v))))
+		}
 		// ghost link from the new backing array to the string it was made from
 		e.declareFun("str_of_arr", []Sort{SInt}, SStr)
 		e.assert(Eq(App(SStr, "str_of_arr", r), v))
@@ -1098,6 +1116,13 @@ func (e *Enc) encodeConvert(x *ssa.Convert) {
 			eb, _ := sl.Elem().Underlying().(*types.Basic)
 			if eb != nil && eb.Kind() == types.Uint8 {
 				e.assume(Eq(StrLen(c), SliceLen(v)))
+			} else if eb != nil && eb.Kind() == types.Int32 {
+				// the string made from runes is a function of the rune sequence (array contents, offset, length)
+				e.declareFun("str_from_runes", []Sort{ArraySort(SInt, SInt), SInt, SInt}, SStr)
+				k := e.p.elemKey(sl.Elem())
+				e.assume(Eq(c, App(SStr, "str_from_runes", Select(e.heapGet(e.cur, k), SliceArr(v)), SliceOff(v), SliceLen(v))))
+				e.assume(And(Ge(StrLen(c), SliceLen(v)), Le(StrLen(c), Mul(IntLit(4), SliceLen(v)))))
+				e.assume(Eq(App(SInt, "rune_count", c), SliceLen(v)))
 			} else {
 				e.assume(And(Ge(StrLen(c), SliceLen(v)), Le(StrLen(c), Mul(IntLit(4), SliceLen(v)))))
 				e.assume(Eq(App(SInt, "rune_count", c), SliceLen(v)))
@@ -1254,4 +1279,71 @@ func (e *Enc) mapUpdateOrdinal(x *ssa.MapUpdate) int {
 		}
 	}
 	return -1
+}
+
+// storeAtClauses: `at store[T.f] requires P(base, v)` / `at store[T.f]#k ...` obligations at the
+// function's own stores to field f of struct T (k counts those stores in source order).
+func (e *Enc) storeAtClauses(x *ssa.Store, a *Addr) {
+	if e.fc == nil || e.prefix != "" || x.Parent() != e.fn {
+		return
+	}
+	st := a.Struct.Underlying().(*types.Struct)
+	want := "store[" + e.p.structKeyName(a.Struct) + "." + st.Field(a.Field).Name() + "]"
+	any := false
+	for _, at := range e.fc.At {
+		if at.Callee == want || strings.HasPrefix(at.Callee, want+"#") {
+			any = true
+		}
+	}
+	if !any {
+		return
+	}
+	// ordinal among the stores to this field
+	type site struct {
+		pos token.Pos
+		in  *ssa.Store
+	}
+	var sites []site
+	for _, b := range e.fn.Blocks {
+		for _, in := range b.Instrs {
+			s2, ok := in.(*ssa.Store)
+			if !ok {
+				continue
+			}
+			fa, ok := s2.Addr.(*ssa.FieldAddr)
+			if !ok {
+				continue
+			}
+			t2 := derefType(fa.X.Type())
+			if t2 != nil && e.p.structKeyName(t2) == e.p.structKeyName(a.Struct) && fa.Field == a.Field {
+				sites = append(sites, site{in.Pos(), s2})
+			}
+		}
+	}
+	sort.SliceStable(sites, func(i, j int) bool { return sites[i].pos < sites[j].pos })
+	ord := -1
+	for i, s2 := range sites {
+		if s2.in == x {
+			ord = i
+		}
+	}
+	for i, at := range e.fc.At {
+		if at.Callee != want && at.Callee != fmt.Sprintf("%s#%d", want, ord) {
+			continue
+		}
+		e.atHit[i] = true
+		env := e.fnEnv(e.cur)
+		env.vars["base"] = TV{T: a.Base, Typ: types.NewPointer(a.Struct)}
+		env.vars["v"] = TV{T: e.termOf(x.Val), Typ: x.Val.Type()}
+		label := at.Clause.Label
+		if label == "" {
+			label = "a" + itoa(i)
+		}
+		t, err := env.Eval(at.Clause.Expr)
+		if err != nil {
+			e.contractError(e.name, at.Clause, err, x.Pos())
+			continue
+		}
+		e.oblige("at", want+"/"+label, x.Pos(), t.T, at.Clause.Props, "at "+want+" requires "+at.Clause.Src)
+	}
 }
